@@ -226,3 +226,42 @@ Definition report_in (i : lp_in) (c : conv) (a : assignment) : rep_in :=
      r_greenhouse := firstn (NM i) (greenhouse i ++ repeat 0 (NM i));
      r_milk := firstn (NM i) (milk i ++ repeat 0 (NM i));
      r_crops_prod := firstn (NM i) (crops_prod i ++ repeat 0 (NM i)) |}.
+
+(* ------------------------------------------------------------------ feed / biofuel series (round hand-off) *)
+
+(* Extractor: *_feed / *_biofuel = extract_generic_results / create_food_object_... of the feed / biofuel variables
+   (billion people fed); Interpreter.calculate_feed_and_biofuels: in_units_percent_fed, then
+   in_units_kcals_equivalent of the percent series, then the sum
+   cell_sugar + scp + seaweed + outdoor_crops + stored_food  (feed_sum_kcals_equivalent / biofuels_sum_kcals_equivalent);
+   compute_parameters_third_round converts it back with in_units_bil_kcals_thou_tons_thou_tons_per_month *)
+Definition m_pct_ke (c : conv) : Q := mult c "percent people fed each month" "kcals per person per day each month".
+Definition m_ke_bk (c : conv) : Q := mult c "kcals per person per day each month" "billion kcals each month".
+
+Record fb_in := {
+  f_n : nat; f_km : Q; f_conv : conv; f_sw_kcals : Q;
+  vf_sf : varlist; vf_cr : varlist; vf_sw : varlist; vf_cs : varlist; vf_scp : varlist;   (* *_feed *)
+  vb_sf : varlist; vb_cr : varlist; vb_sw : varlist; vb_cs : varlist; vb_scp : varlist    (* *_biofuel *)
+}.
+
+(* one food's use: variable values -> kcals per person per day (through billions fed and percent) *)
+Definition use_ke (x : fb_in) (v : varlist) (ratio : Q) : list Q :=
+  lscale (m_pct_ke (f_conv x)) (lscale (m_bf_pct (f_conv x)) (to_monthly_list (f_n x) v (ratio / f_km x))).
+
+Definition sum5 (cs scp sw cr sf : list Q) : list Q := ladd (ladd (ladd (ladd cs scp) sw) cr) sf.
+
+Definition feed_sum_ke (x : fb_in) : list Q :=
+  sum5 (use_ke x (vf_cs x) 1) (use_ke x (vf_scp x) 1) (use_ke x (vf_sw x) (f_sw_kcals x))
+       (use_ke x (vf_cr x) 1) (use_ke x (vf_sf x) 1).
+Definition biofuels_sum_ke (x : fb_in) : list Q :=
+  sum5 (use_ke x (vb_cs x) 1) (use_ke x (vb_scp x) 1) (use_ke x (vb_sw x) (f_sw_kcals x))
+       (use_ke x (vb_cr x) 1) (use_ke x (vb_sf x) 1).
+
+(* in_units_bil_kcals_thou_tons_thou_tons_per_month of a kcals-equivalent series *)
+Definition back_to_bk (c : conv) (l : list Q) : list Q := lscale (m_ke_bk c) l.
+
+Definition fb_of (i : lp_in) (c : conv) (a : assignment) : fb_in :=
+  {| f_n := NM i; f_km := kcals_monthly_pp i; f_conv := c; f_sw_kcals := sw_kcals i;
+     vf_sf := vars_of i a (add_sf i) SF_f; vf_cr := vars_of i a (add_cr i) CR_f; vf_sw := vars_of i a (add_sw i) SW_f;
+     vf_cs := vars_of i a (add_cs i) CS_f; vf_scp := vars_of i a (add_scp i) SCP_f;
+     vb_sf := vars_of i a (add_sf i) SF_b; vb_cr := vars_of i a (add_cr i) CR_b; vb_sw := vars_of i a (add_sw i) SW_b;
+     vb_cs := vars_of i a (add_cs i) CS_b; vb_scp := vars_of i a (add_scp i) SCP_b |}.
